@@ -95,8 +95,21 @@ func (g *c40Gen) producer() string {
 }
 
 func (g *c40Gen) filter(depth int) string {
-	k := g.n("filter", 0, 15)
+	k := g.n("filter", 0, 19)
 	switch k {
+	case 16:
+		// builtins that capture the output of a callback: the capture must be
+		// torn down when the callback fails, too
+		g.feat["fail"] = true
+		return "keep-if {|x| fail pred }"
+	case 17:
+		g.feat["fail"] = true
+		return "order &key={|x| fail key }"
+	case 18:
+		g.feat["fail"] = true
+		return "order &less-than={|a b| fail less }"
+	case 19:
+		return "keep-if {|x| put $true }"
 	case 0:
 		return "each {|x| put $x }"
 	case 1:
@@ -195,6 +208,13 @@ var c40Bundles = []c40Bundle{
 	{text: "< $missing", fails: true},
 	{text: "> $f1 9>&8", fails: true},
 	{text: "> $f0 >&stdout", lastOnly: true}, // self-duplicate
+	// an owned file duplicated onto an fd that did not exist before, then the
+	// original fd redirected to another file: the ownership table grows while
+	// the displaced file is handed over
+	{text: "> $f0 3>&1 > $f1", lastOnly: true},
+	{text: "> $f0 5>&1 >> $f1", lastOnly: true},
+	{text: "2> $f0 4>&2 2> $f1"},
+	{text: "3> $f0 7>&3 3> $f1"},
 }
 
 func (g *c40Gen) redirs(first, last bool) string {
